@@ -337,54 +337,116 @@ def r4(run: Run, rt):
                 run.check(got == want, 'C15.R4', construct + f'/{names[wd]}{"/holiday" if hol else ""}', f'counts:{names[wd]}{"-holiday" if hol else ""}',
                           f'a {names[wd]}{" that is a listed holiday" if hol else ""} is {"counted" if got else "not counted"} as a working day',
                           fact='counted' if got else 'not counted', loc=cp.loc(cond))
-        # holidays are dates (like `cur`), taken from every datetime entry of the area
+        # holidays are dates (like the loop day), taken from the datetime entries of the area
         if hol_names:
-            hn = sorted(hol_names)[0]
-            builds = [n for n in ast.walk(fn) if isinstance(n, (ast.ListComp, ast.GeneratorExp, ast.SetComp))]
-            as_date = any(isinstance(b.elt, ast.Call) and isinstance(b.elt.func, ast.Attribute) and b.elt.func.attr == 'date' for b in builds)
-            cur_def = [st for st in ast.walk(fn) if isinstance(st, ast.Assign) and any(isinstance(x, ast.Name) and x.id == cur for x in st.targets)
-                       and not any(st is x for x in ast.walk(loop))]
-            cur_is_date = bool(cur_def) and all(isinstance(st.value, ast.Call) and isinstance(st.value.func, ast.Attribute) and
-                                                st.value.func.attr == 'date' for st in cur_def)
+            as_date = any(isinstance(b, ast.Call) and isinstance(b.func, ast.Attribute) and b.func.attr == 'date' and
+                          isinstance(b.func.value, ast.Name) and b.func.value.id not in (ps[0], ps[1])
+                          for b in ast.walk(fn))
+            cur_is_date = any(isinstance(b, ast.Call) and isinstance(b.func, ast.Attribute) and b.func.attr == 'date' and
+                              isinstance(b.func.value, ast.Name) and b.func.value.id in (ps[0], ps[1]) for b in ast.walk(fn))
             run.check(as_date == cur_is_date, 'C15.R4', construct + '/holiday-type', 'holiday-type-mismatch',
                       'the loop day and the collected holidays are not both dates (or both date-times): a holiday never equals the day '
                       'it is compared with', fact='date compared with date', loc=cp.loc(fn))
-        # sign: result = counter * multiple; multiple is 1 where start <= end and -1 on the swapped branch
-        sign_ok = False
-        if isinstance(ret, ast.BinOp) and isinstance(ret.op, ast.Mult):
-            other = [x for x in (ret.left, ret.right) if not (isinstance(x, ast.Name) and x.id == counter)]
-            if len(other) == 1 and isinstance(other[0], ast.Name):
-                mult = other[0].id
-                assigns = [st for st in ast.walk(fn) if isinstance(st, ast.Assign) and any(isinstance(x, ast.Name) and x.id == mult for x in st.targets)]
-                vals = {}
-                for st in assigns:
-                    conds = [c for c in path_conditions(fn, st, parents) if _ordered_test(c[0], ps[0], ps[1]) is not None]
-                    if len(conds) != 1:
-                        raise AnalysisError('C15.R4', 'unmodelled sign branch')
-                    test, pol = conds[0]
-                    ordered = _ordered_test(test, ps[0], ps[1])
-                    if ordered is None:
-                        raise AnalysisError('C15.R4', f'unmodelled interval test `{ast.unparse(test)}`')
-                    is_ordered_branch = (ordered == pol)
-                    try:
-                        v = ast.literal_eval(st.value)
-                    except Exception:
-                        raise AnalysisError('C15.R4', 'non-constant sign')
-                    vals[is_ordered_branch] = v
-                    # start/end of the loop on this branch
-                    blk = [s2 for s2 in ast.walk(fn) if isinstance(s2, ast.If) and s2.test is test][0]
-                    body = blk.body if pol else blk.orelse
-                    binds = {x.id: ast.unparse(s2.value) for s2 in body if isinstance(s2, ast.Assign) for x in s2.targets if isinstance(x, ast.Name)}
-                    lo, hi = binds.get(cur, ''), binds.get(end, '')
-                    want_lo, want_hi = (ps[0], ps[1]) if is_ordered_branch else (ps[1], ps[0])
-                    run.check(lo.startswith(want_lo) and hi.startswith(want_hi), 'C15.R4',
-                              construct + f'/{"ordered" if is_ordered_branch else "reversed"}-bounds', 'loop-bounds',
-                              f'on the {"ordered" if is_ordered_branch else "reversed"} branch the loop runs from `{lo}` to `{hi}`; it has to '
-                              f'run from the earlier to the later date', fact=f'{lo} .. {hi}', loc=cp.loc(blk))
-                sign_ok = vals.get(True) == 1 and vals.get(False) == -1
-        run.check(sign_ok, 'C15.R4', construct + '/sign', 'sign',
-                  f'the result `{ast.unparse(ret)}` is not +count for an ordered interval and -count for a reversed one',
-                  fact='+1 ordered, -1 reversed', loc=cp.loc(rets[0]))
+        # bounds and sign: the statements before the loop are evaluated for start < end, start = end and start > end with the two
+        # dates as ranks; the loop has to run from the earlier to the later date and the result is +count / -count
+        if not (isinstance(ret, ast.BinOp) and isinstance(ret.op, ast.Mult)):
+            raise AnalysisError('C15.R4', f'_network_days: unmodelled result `{ast.unparse(ret)}`')
+        other = [x for x in (ret.left, ret.right) if not (isinstance(x, ast.Name) and x.id == counter)]
+        if len(other) != 1 or not isinstance(other[0], ast.Name):
+            raise AnalysisError('C15.R4', f'_network_days: unmodelled sign factor in `{ast.unparse(ret)}`')
+        mult = other[0].id
+        prelude = []
+        for st in fn.body:
+            if st is loop:
+                break
+            prelude.append(st)
+        for case, (rs, re_) in (('start < end', (1, 2)), ('start = end', (1, 1)), ('start > end', (2, 1))):
+            env = {ps[0]: rs, ps[1]: re_}
+            try:
+                _eval_prelude(prelude, env)
+            except _Skip as sk:
+                raise AnalysisError('C15.R4', f'_network_days: the statements before the day loop are outside the modelled subset: {sk}')
+            lo, hi, sg = env.get(cur), env.get(end), env.get(mult)
+            want = (min(rs, re_), max(rs, re_), 1 if rs <= re_ else -1)
+            run.check((lo, hi) == want[:2], 'C15.R4', construct + f'/bounds[{case}]', 'loop-bounds',
+                      f'for {case} the day loop runs from the {"start" if lo == rs else "end"} date to the '
+                      f'{"end" if hi == re_ else "start"} date; it has to run from the earlier to the later date',
+                      fact='earlier .. later', loc=cp.loc(loop))
+            run.check(sg == want[2], 'C15.R4', construct + f'/sign[{case}]', 'sign',
+                      f'for {case} the count is multiplied by {sg!r}; the result is +count for an ordered interval and -count for a '
+                      f'reversed one', fact=f'{want[2]:+d}', loc=cp.loc(rets[0]))
+
+
+class _Skip(Exception):
+    pass
+
+
+def _eval_prelude(stmts, env):
+    """evaluates the bookkeeping before the day loop with the two dates as integer ranks (d.date() keeps the rank); statements
+    that do not touch a tracked name are skipped"""
+    def ev(e):
+        if isinstance(e, ast.Constant):
+            return e.value
+        if isinstance(e, ast.Name):
+            if e.id in env:
+                return env[e.id]
+            raise _Skip(f'name {e.id}')
+        if isinstance(e, ast.UnaryOp) and isinstance(e.op, ast.USub):
+            return -ev(e.operand)
+        if isinstance(e, ast.UnaryOp) and isinstance(e.op, ast.Not):
+            return not ev(e.operand)
+        if isinstance(e, (ast.Tuple, ast.List)):
+            return tuple(ev(x) for x in e.elts)
+        if isinstance(e, ast.Call) and isinstance(e.func, ast.Attribute) and e.func.attr == 'date' and not e.args:
+            return ev(e.func.value)
+        if isinstance(e, ast.Call) and isinstance(e.func, ast.Name) and e.func.id in ('sorted', 'min', 'max') and e.args:
+            vals = ev(e.args[0]) if len(e.args) == 1 else tuple(ev(a) for a in e.args)
+            if e.func.id == 'sorted':
+                return tuple(sorted(vals))
+            return min(vals) if e.func.id == 'min' else max(vals)
+        if isinstance(e, ast.IfExp):
+            return ev(e.body) if ev(e.test) else ev(e.orelse)
+        if isinstance(e, ast.BoolOp):
+            vals = [ev(v) for v in e.values]
+            return all(vals) if isinstance(e.op, ast.And) else any(vals)
+        if isinstance(e, ast.Compare) and len(e.ops) == 1:
+            a, b = ev(e.left), ev(e.comparators[0])
+            import operator as _o
+            table = {ast.Lt: _o.lt, ast.LtE: _o.le, ast.Gt: _o.gt, ast.GtE: _o.ge, ast.Eq: _o.eq, ast.NotEq: _o.ne}
+            if type(e.ops[0]) in table:
+                return table[type(e.ops[0])](a, b)
+        raise _Skip(ast.unparse(e)[:50])
+
+    def tracked(node):
+        return bool({n.id for n in ast.walk(node) if isinstance(n, ast.Name)} & set(env))
+
+    def assign(t, v):
+        if isinstance(t, ast.Name):
+            env[t.id] = v
+        elif isinstance(t, (ast.Tuple, ast.List)) and isinstance(v, tuple) and len(v) == len(t.elts):
+            for a, b in zip(t.elts, v):
+                assign(a, b)
+        else:
+            raise _Skip(ast.unparse(t)[:40])
+    for st in stmts:
+        if isinstance(st, ast.Assign):
+            try:
+                v = ev(st.value)
+            except _Skip:
+                if tracked(st.value) and any(isinstance(x, ast.Call) and isinstance(x.func, ast.Attribute) and x.func.attr == 'date'
+                                             for x in ast.walk(st.value)) and not any(isinstance(x, (ast.ListComp, ast.GeneratorExp)) for x in ast.walk(st.value)):
+                    raise
+                continue                       # bookkeeping that does not concern the bounds (holiday collection, counters)
+            for t in st.targets:
+                assign(t, v)
+        elif isinstance(st, ast.If):
+            try:
+                c = ev(st.test)
+            except _Skip:
+                continue
+            _eval_prelude(st.body if c else st.orelse, env)
+        else:
+            continue
 
 
 def _ordered_test(test, start, end):
